@@ -319,6 +319,11 @@ class Loop:
         self.p_order_mismatch = list(self.model["p_defaults"].keys()) != [self.model["p"][i].name() for i in range(self.model["p"].shape[0])]
         self.xi = self.model["x_index"]
         self.C = extract_sim_constants(self.model["p_defaults"])
+        self.cst_idx, parts, k0 = {}, [], 0
+        for name in ("input_aetr", "k_p_att", "thrust_trim", "kp", "ki", "kd", "f_cut", "i_max", "F_max", "l", "CM", "CT"):
+            v = np.atleast_1d(np.asarray(self.C[name], float)).flatten()
+            self.cst_idx[name] = (k0, k0 + len(v)); k0 += len(v); parts.append(v)
+        self.cst = np.concatenate(parts)
         eqs = {}
         eqs.update(rdd2.derive_attitude_rate_control())
         eqs.update(rdd2.derive_attitude_control())
@@ -348,7 +353,15 @@ class Loop:
         ca, C, eqs = self.ca, self.C, self.eqs
         x = ca.SX.sym("x", self.model["x"].shape[0])
         mem = ca.SX.sym("mem", NMEM)
-        p = ca.DM(self.p)
+        # the plant parameters are a RUN-TIME input of the period function, as they are for the simulator's integrator:
+        # folded in as constants, CasADi simplifies 0*expr to 0 and a NaN of the real run (0 * NaN) disappears
+        p = ca.SX.sym("p", len(self.p))
+        # ... and so are the script's constants (sticks, gains, limits): the simulator passes them as numbers at every
+        # tick, so 0 * NaN stays NaN there; as folded constants a zero stick would erase it
+        cst = ca.SX.sym("cst", len(self.cst))
+        def cs(name):
+            a, b = self.cst_idx[name]
+            return cst[a:b]
         f = self.model["f"]
         dt = C["dt"]
         u = mem[MEM["u"]]
@@ -369,30 +382,30 @@ class Loop:
         vb = self.xs(x1, "velocity_w_p_b", 3)
         vw = eqs["rotate_vector_b_to_w"](q, vb)
         # update_controller, input_mode == "velocity"
-        aetr = ca.DM(C["input_aetr"])
+        aetr = cs("input_aetr")
         reset_position = False
         psi_sp, psi_vel_sp, pw_sp, vw_sp, aw_sp, qc_sp = eqs["input_velocity"](
             dt, mem[MEM["psi_sp"]], mem[MEM["pw_sp"]], pw, aetr, reset_position)
         z_i = mem[MEM["z_i"]]
-        k_p_att = ca.DM(C["k_p_att"])
+        k_p_att = cs("k_p_att")
         if mode == "mellinger":
-            thrust, q_sp, z_i1 = eqs["position_control"](C["thrust_trim"], pw_sp, vw_sp, aw_sp, qc_sp, pw, vw, z_i, dt)
+            thrust, q_sp, z_i1 = eqs["position_control"](cs("thrust_trim"), pw_sp, vw_sp, aw_sp, qc_sp, pw, vw, z_i, dt)
             omega_sp = eqs["attitude_control"](k_p_att, q, q_sp)
         elif mode == "loglinear":
             zeta = eqs["se23_error"](pw, vw, q, pw_sp, vw_sp, qc_sp)
-            thrust, q_sp, z_i1 = eqs["se23_position_control"](C["thrust_trim"], k_p_att, zeta, aw_sp, qc_sp, z_i, dt)
+            thrust, q_sp, z_i1 = eqs["se23_position_control"](cs("thrust_trim"), k_p_att, zeta, aw_sp, qc_sp, z_i, dt)
             omega_sp = eqs["so3_attitude_control"](k_p_att, q, q_sp)
         else:
             raise MachineryError("unknown control mode " + mode)
         M, i1, e1, de1, alpha = eqs["attitude_rate_control"](
-            ca.DM(C["kp"]), ca.DM(C["ki"]), ca.DM(C["kd"]), C["f_cut"], ca.DM(C["i_max"]), omega, omega_sp,
+            cs("kp"), cs("ki"), cs("kd"), cs("f_cut"), cs("i_max"), omega, omega_sp,
             mem[MEM["i0"]], mem[MEM["e0"]], mem[MEM["de0"]], dt)
-        u1, Fp, Fm, Ft, Msat = eqs["f_alloc"](C["F_max"], C["l"], C["CM"], C["CT"], thrust, M)
+        u1, Fp, Fm, Ft, Msat = eqs["f_alloc"](cs("F_max"), cs("l"), cs("CM"), cs("CT"), thrust, M)
         mem1 = ca.vertcat(u1, i1, e1, de1, z_i1, psi_sp, pw_sp)
         aux = ca.vertcat(thrust, q_sp, omega_sp, M, Fp)
         assert mem1.shape[0] == NMEM and aux.shape[0] == NAUX
         # mapaccum: first n_accum inputs/outputs are the accumulated state; repeat them as plain outputs
-        return ca.Function("period_" + mode, [x, mem], [x1, mem1, aux], ["x", "mem"], ["x1", "mem1", "aux"])
+        return ca.Function("period_" + mode, [x, mem, p, cst], [x1, mem1, aux], ["x", "mem", "p", "cst"], ["x1", "mem1", "aux"])
 
     # --------------------------------------------------------------------------------------
     def launch_state(self, ic):
@@ -424,7 +437,7 @@ class Loop:
         """returns X (nx, N+1), MEM (NMEM, N+1), AUX (NAUX, N+1; column 0 = nan-free zeros)"""
         x0, mem0 = self.launch_state(ic)
         F = self.traj[ic["mode"]]
-        r = F(x0, mem0)
+        r = F(x0, mem0, np.tile(self.p[:, None], (1, self.N)), np.tile(self.cst[:, None], (1, self.N)))
         X = np.hstack([x0[:, None], np.array(r[0])])
         Mm = np.hstack([mem0[:, None], np.array(r[1])])
         A = np.hstack([np.zeros((NAUX, 1)), np.array(r[2])])
